@@ -46,6 +46,7 @@ CASE_LIMIT_S = 30.0
 
 EPS = 1e-9
 AGGS = ["co_count", "co_sum", "co_min", "co_max", "co_avg", "co_median"]
+ORDER = []
 RES = [[1, 1], [2, 2], [1, 3], [0.7, 2.3], [3, 1.5]]
 RES_ENUM = RES + [[0.5, 0.75]]
 MARGINS = [0, 0.05, 0.25]
@@ -329,11 +330,18 @@ def _summarise(case):
         tr = gen.make_track([(p[0], p[1], 0.0) for p in t])
         tr.uid = k + 1
         tr.createAnalyticalFeature("v", [float("nan") if p[2] is None else p[2] for p in t])
+        tr.createAnalyticalFeature("w", [float("nan") if p[2] is None else p[2] for p in t])
         trs.append(tr)
     col = TrackCollection(trs)
-    ops = [getattr(U, a) for a in AGGS]
-    raster = summarize(col, ["v"] * len(AGGS) + ["uid"], ops + [U.co_count], tuple(case["res"]), case["margin"])
-    return raster, trs
+    # the order in which the aggregates are requested is part of the configuration: a permutation per case
+    import random
+    names = list(AGGS) + ["uid"]
+    random.Random(repr((case["tracks"], case["res"], case["margin"]))).shuffle(names)
+    afs = ["uid" if a == "uid" else "v" for a in names]
+    ops = [U.co_count if a == "uid" else getattr(U, a) for a in names]
+    raster = summarize(col, afs, ops, tuple(case["res"]), case["margin"])
+    ORDER[:] = names
+    return raster, trs, col
 
 
 def run_case(case, ctx):
@@ -362,8 +370,11 @@ def run_case(case, ctx):
     if M.is_raised(out):
         return violated({"what": "summarize raised on an in-domain collection", "raised": out,
                          "res": res, "margin": margin, "tracks": tracks}, sig, True, sorted(cls))
-    raster, trs = out
+    raster, trs, col = out
     seen = list(SEEN)
+    cls.add("first_requested:" + ORDER[0])
+    if ORDER.index("co_median") < len(ORDER) - 1:
+        cls.add("median_requested_before_another_aggregate")
     nodata = raster.getNoDataValue()
     ncol, nrow = raster.ncol, raster.nrow
     rx, ry = raster.resolution[0], raster.resolution[1]
@@ -453,7 +464,7 @@ def run_case(case, ctx):
         g = m.grid
         if len(g) != nrow or any(len(row) != ncol for row in g):
             return fail("band %s does not have nrow x ncol cells" % name)
-        grids[name] = g
+        grids[name] = [list(row) for row in g]       # a copy: the band is recomputed in place later
 
     # conservation
     ctx.monitor("conservation.counts")
@@ -484,6 +495,37 @@ def run_case(case, ctx):
                                            "empty": not vals})
     for a in AGGS:
         ctx.monitor("aggregate." + a, ncol * nrow)
+
+    # call history on the same Raster object: a further band (feature w, a copy of v) is declared, the collection
+    # is handed over again and the aggregates recomputed -- every band already there must come out unchanged and
+    # the new band must equal the one of v
+    if (nobs + ncol + len(tracks)) % 3 == 0:
+        def again():
+            raster.addAFMap("w#co_count")
+            raster.addAFMap("w#co_sum")
+            raster.addCollectionToRaster(col)
+            raster.computeAggregates()
+        r2 = M.call(again)
+        ctx.monitor("second_addCollection.same_bands")
+        cls.add("history_band_added_later")
+        if M.is_raised(r2):
+            return fail("adding a band to the raster and handing the collection over again raised", raised=r2)
+        for name in ["v#" + a for a in AGGS] + ["uid#co_count"]:
+            g2 = raster.getAFMap(name).grid
+            for r in range(nrow):
+                for c in range(ncol):
+                    if not M.feq(g2[r][c], grids[name][r][c], 1e-12, 0):
+                        return fail("a band changed when the same collection was handed to the raster a second time "
+                                    "(after a further band was declared)", band=name, cell=[c, r],
+                                    first=grids[name][r][c], second=g2[r][c])
+        for a in ("co_count", "co_sum"):
+            gw = raster.getAFMap("w#" + a).grid
+            for r in range(nrow):
+                for c in range(ncol):
+                    if not M.feq(gw[r][c], grids["v#" + a][r][c], 1e-12, 0):
+                        return fail("a band declared later differs from the same aggregate of the same values computed "
+                                    "in the first pass", band="w#" + a, cell=[c, r], got=gw[r][c],
+                                    expected=grids["v#" + a][r][c])
 
     # direct getCell probes (the contract judges them)
     for p in case.get("probes", []):
